@@ -174,5 +174,11 @@ def run(c):
     # the node's acceptance path above the consensus checks: forged copies of genuine blocks (altered header under the genuine
     # identifier, signature no longer verifying) delivered before the genuine ones, in arrival orders with children before
     # parents - a block whose signature does not verify must not be connected through the orphan pool either
-    from checks import c18_chain
-    c18_chain.run_chain_identity(c)
+    # (thorough tier here; C18's quick tier runs the same deliveries on every change)
+    if thorough:
+        from checks import c18_chain
+        c18_chain.run_chain_identity(c)
+    # "the current producer set": which list is in force at which height (bp.Snapshots / Cluster under connects,
+    # reorganisations, restarts, gc) - BpSnapshots.tla behaviours replayed on the real dpos.Status / bp.Snapshots
+    from checks import bpsnap_common
+    bpsnap_common.run_bpsnap(c)
